@@ -8,6 +8,7 @@ mod c02;
 mod c03;
 mod c06;
 mod c07;
+mod c09;
 mod chainx;
 mod corrupt;
 mod ledger;
@@ -37,6 +38,10 @@ pub trait Engine {
 	/// (part name, number of worker processes)
 	fn parts(&self, tier: Tier) -> Vec<(&'static str, usize)>;
 	fn run_part(&self, part: &str, tier: Tier, shard: usize, n: usize) -> Report;
+	/// helper child process of the engine (crash victims, judges, untrusted-input workers)
+	fn child(&self, _args: &[String]) -> i32 {
+		2
+	}
 	/// re-run one case; returns an observation string (Err = the violation reproduces)
 	fn replay(&self, _case: &Value) -> Result<String, String> {
 		Ok("replay not implemented for this engine".into())
@@ -44,7 +49,7 @@ pub trait Engine {
 }
 
 fn engines() -> Vec<Box<dyn Engine>> {
-	vec![Box::new(c02::C02), Box::new(c03::C03), Box::new(c06::C06), Box::new(c07::C07)]
+	vec![Box::new(c02::C02), Box::new(c03::C03), Box::new(c06::C06), Box::new(c07::C07), Box::new(c09::C09)]
 }
 
 fn main() {
@@ -73,6 +78,9 @@ fn main() {
 			std::process::exit(2);
 		}
 	};
+	if args[2] == "--child" {
+		std::process::exit(eng.child(&args[3..]));
+	}
 	if args[2] == "--replay" {
 		let s = std::fs::read_to_string(&args[3]).expect("read replay file");
 		let v: Value = serde_json::from_str(&s).expect("parse replay file");
